@@ -212,6 +212,7 @@ type rnode struct {
 	id       TS
 	val      interface{}
 	valTs    TS
+	valID    TS // identity of the node currently holding the value (documents)
 	deleted  bool
 	children []*rnode
 }
@@ -224,11 +225,18 @@ type rnode struct {
 // value) when non-nil. countNodes gives the number of identities a value consumes (1 for
 // lists; the node count of the value tree for documents).
 func RefSeq(ops []DOp, insT, delT, updT model.TypeOfOperation, parent *TS, init []TS, initVals []interface{}, countNodes func(v interface{}) uint32) ([]interface{}, []TS, error) {
+	vals, ids, _, err := RefSeqIDs(ops, insT, delT, updT, parent, init, initVals, countNodes)
+	return vals, ids, err
+}
+
+// RefSeqIDs is RefSeq that also returns, per live element, the identity of the node that
+// currently holds its value (differs from the element identity after an update).
+func RefSeqIDs(ops []DOp, insT, delT, updT model.TypeOfOperation, parent *TS, init []TS, initVals []interface{}, countNodes func(v interface{}) uint32) ([]interface{}, []TS, []TS, error) {
 	head := &rnode{id: TS{C: NilCUID}}
 	idx := map[TS]*rnode{head.id: head}
 	prev := head
 	for i, id := range init {
-		n := &rnode{id: id, val: initVals[i], valTs: TS{E: id.E, L: id.L, C: id.C}}
+		n := &rnode{id: id, val: initVals[i], valTs: TS{E: id.E, L: id.L, C: id.C}, valID: id}
 		idx[id] = n
 		prev.children = append(prev.children, n)
 		prev = n
@@ -250,15 +258,15 @@ func RefSeq(ops []DOp, insT, delT, updT model.TypeOfOperation, parent *TS, init 
 			continue
 		}
 		if len(o.T) != 1 {
-			return nil, nil, fmt.Errorf("insert %v without anchor", o.ID)
+			return nil, nil, nil, fmt.Errorf("insert %v without anchor", o.ID)
 		}
 		p := idx[o.T[0]]
 		if p == nil {
-			return nil, nil, fmt.Errorf("insert %v: anchor %v is not an element identity known to the reference", o.ID, o.T[0])
+			return nil, nil, nil, fmt.Errorf("insert %v: anchor %v is not an element identity known to the reference", o.ID, o.T[0])
 		}
 		d := uint32(0)
 		for _, v := range o.V {
-			n := &rnode{id: TS{o.ID.E, o.ID.L, o.ID.C, d}, val: v, valTs: o.ID}
+			n := &rnode{id: TS{o.ID.E, o.ID.L, o.ID.C, d}, val: v, valTs: o.ID, valID: TS{o.ID.E, o.ID.L, o.ID.C, d}}
 			idx[n.id] = n
 			p.children = append(p.children, n)
 			p = n
@@ -269,13 +277,17 @@ func RefSeq(ops []DOp, insT, delT, updT model.TypeOfOperation, parent *TS, init 
 		if o.Type != updT {
 			continue
 		}
+		d := uint32(0)
 		for i, t := range o.T {
 			n := idx[t]
 			if n == nil {
-				return nil, nil, fmt.Errorf("update %v: target %v unknown to the reference", o.ID, t)
+				return nil, nil, nil, fmt.Errorf("update %v: target %v unknown to the reference", o.ID, t)
 			}
-			if i < len(o.V) && n.valTs.Less(o.ID) {
-				n.val, n.valTs = o.V[i], o.ID
+			if i < len(o.V) {
+				if n.valTs.Less(o.ID) {
+					n.val, n.valTs, n.valID = o.V[i], o.ID, TS{o.ID.E, o.ID.L, o.ID.C, d}
+				}
+				d += countNodes(o.V[i])
 			}
 		}
 	}
@@ -286,18 +298,19 @@ func RefSeq(ops []DOp, insT, delT, updT model.TypeOfOperation, parent *TS, init 
 		for _, t := range o.T {
 			n := idx[t]
 			if n == nil {
-				return nil, nil, fmt.Errorf("delete %v: target %v unknown to the reference", o.ID, t)
+				return nil, nil, nil, fmt.Errorf("delete %v: target %v unknown to the reference", o.ID, t)
 			}
 			n.deleted = true
 		}
 	}
 	out := []interface{}{}
-	var ids []TS
+	var ids, valIDs []TS
 	var walk func(n *rnode)
 	walk = func(n *rnode) {
 		if n != head && !n.deleted {
 			out = append(out, n.val)
 			ids = append(ids, n.id)
+			valIDs = append(valIDs, n.valID)
 		}
 		ch := append([]*rnode{}, n.children...)
 		sort.SliceStable(ch, func(i, j int) bool { return ch[j].id.Less(ch[i].id) }) // newest first
@@ -306,7 +319,7 @@ func RefSeq(ops []DOp, insT, delT, updT model.TypeOfOperation, parent *TS, init 
 		}
 	}
 	walk(head)
-	return out, ids, nil
+	return out, ids, valIDs, nil
 }
 
 // One counts one identity per value (List).
